@@ -67,6 +67,7 @@ pub struct Sink {
     total: std::sync::atomic::AtomicU64,
     samples: Mutex<Vec<Value>>,
     notes: Mutex<Vec<String>>,
+    fatal: Mutex<Vec<String>>,
     pub seed: u64,
 }
 
@@ -83,6 +84,7 @@ impl Sink {
             total: std::sync::atomic::AtomicU64::new(0),
             samples: Mutex::new(Vec::new()),
             notes: Mutex::new(Vec::new()),
+            fatal: Mutex::new(Vec::new()),
             seed,
         }
     }
@@ -134,6 +136,28 @@ impl Sink {
         let mut g = self.notes.lock().unwrap();
         if g.len() < 50 {
             g.push(s);
+        }
+    }
+
+    /// something that makes a verdict impossible (e.g. the library cannot construct a start
+    /// position while another property is being checked): the run ends with MACHINERY-ERROR
+    pub fn fatal(&self, s: String) {
+        let mut g = self.fatal.lock().unwrap();
+        if g.len() < 20 {
+            g.push(s);
+        }
+    }
+    pub fn fatals(&self) -> Vec<String> {
+        self.fatal.lock().unwrap().clone()
+    }
+    /// a start position / curated legal line could not be constructed. For C06 this is the
+    /// violation itself (positions reached by legal play from every start position — zero moves
+    /// included — must be handed out and accepted); for every other property no verdict is possible.
+    pub fn start_failed(&self, what: &str, case: Value, detail: String) {
+        if self.prop == "C06" {
+            self.violation("C06.start", what, case, detail);
+        } else {
+            self.fatal(format!("{}: {}", what, detail));
         }
     }
 
@@ -301,6 +325,14 @@ pub fn finish(run: &Run, partial_path: &str, replay_check: &dyn Fn(&Value) -> Re
             return 2;
         }
     };
+    // a violation that was found stands on its own; "no verdict" only when nothing was found
+    let fatals = run.sink.fatals();
+    if !fatals.is_empty() && run.sink.violation_count() == 0 {
+        for f in fatals {
+            println!("MACHINERY-ERROR no verdict possible for {}: {}", run.prop, f);
+        }
+        return 2;
+    }
     let mut exit = 0;
     // Known findings suppress only the exact listed case; if *any* violation of a signature is not
     // listed the smallest unlisted one is reported.
